@@ -9,7 +9,9 @@ RULE = ("generated directory trees (depth <= 3, subdirectories sub/ and d1/d2/) 
         "%include / %include_hex, with labels and auto-sized pushes on both sides of every directive, hex blobs of 0..300 "
         "bytes, label names deliberately repeated across include boundaries; materialised in a fresh directory for the real "
         "Ingest::ingest_file and given to the model as a file-system value; the reference is the composition of separately "
-        "assembled parts (includes assembled on their own and spliced as raw bytes, imports pasted). non-trivial = at least "
+        "assembled parts (includes assembled on their own and spliced as raw bytes, imports pasted); plus an ISOLATION family: one "
+        "include with or without labels of its own, the same macro / expression macro / label name on both sides, or a name that only "
+        "the other side defines (expected: own result, resp. the matching undeclared-name error). non-trivial = at least "
         "two files")
 EXHAUSTIVE = {"quick": False, "thorough": False}
 ASSUMPTIONS = ["std::fs semantics are modelled by Asm/Ingest.lean's Tree (files, directories, symlinks)"]
@@ -21,6 +23,12 @@ def cases(rng, tier):
     for _ in range(n):
         top, entries, want = F.gen_compose(rng)
         c = {"line": F.line(top, entries), "tags": ["compose"], "nfiles": len(entries)}
+        if isinstance(want, bytes): c["want_ok"] = C.hexs(want)
+        elif isinstance(want, tuple): c["want_err"] = want[1]
+        cs.append(c)
+    for _ in range(n // 3):
+        top, entries, want, scen = F.gen_isolation(rng)
+        c = {"line": F.line(top, entries), "tags": ["isolation", scen], "nfiles": len(entries)}
         if isinstance(want, bytes): c["want_ok"] = C.hexs(want)
         elif isinstance(want, tuple): c["want_err"] = want[1]
         cs.append(c)
@@ -43,7 +51,8 @@ MANIFEST = {
             "system), and a nested scope contributes exactly the bytes it assembles to as a stand-alone program (own macro table, own "
             "layout from offset zero, nothing shared in either direction); raw bytes advance all later label positions by their full "
             "length (prefix-sum layout, C01); %include_hex of a file holding the hex text of bs, surrounded by any white space, yields exactly "
-            "the raw bytes bs (C12_include_hex_exact). PARTIAL: 'equivalent to pasting the text' is proved at item level; the text-level paste "
+            "the raw bytes bs (C12_include_hex_exact); the TEXT of a directive (blanks, quoted path with backslash-escaped backslashes and quotes, any layout) parses to "
+            "the directive node with exactly the unescaped path (C12_text). PARTIAL: 'equivalent to pasting the text' is proved at item level; the text-level paste "
             "lemma about the grammar is exercised, not proved.",
     "note": "Trusted: Lean kernel; Asm/Ingest.lean (Root, Program, preprocess, resolve_and_ingest) and its concrete Tree file system tied "
             "to etk_asm::ingest by the differential run on generated directory trees materialised on disk; relative-path resolution is "
